@@ -11,8 +11,12 @@ import (
 	"sort"
 	"strconv"
 	"strings"
+	"sync"
 	"time"
 
+	"encoding/binary"
+
+	"github.com/pion/rtcp"
 	"github.com/pion/rtp"
 
 	"github.com/bluenviron/gortsplib/v5"
@@ -519,7 +523,26 @@ func execute(cs Case) (res Result) {
 	if cs.Cfg.TLS {
 		tlsConf = serverTLSConfig()
 	}
-	srv, app, err := env.StartServer(sysx.ServerOpts{Handlers: cs.Cfg.Handlers, UDP: cs.Cfg.UDP, Desc: sysx.DefaultDesc(2), Tweak: func(s *gortsplib.Server) {
+	var tapMu sync.Mutex
+	var tapped [][]byte
+	env.Net.Tap = func(kind string, src, _ net.Addr, data []byte) {
+		if a, ok := src.(*net.UDPAddr); kind == "udp" && ok && a.Port == 8001 {
+			tapMu.Lock()
+			tapped = append(tapped, data)
+			tapMu.Unlock()
+		}
+	}
+	udpSeen := func() [][]byte {
+		tapMu.Lock()
+		defer tapMu.Unlock()
+		return append([][]byte{}, tapped...)
+	}
+	desc := sysx.DefaultDesc(2)
+	if strings.HasPrefix(cs.Conv, "play-backchannel") {
+		desc = sysx.DefaultDesc(3)
+		desc.Medias[2].IsBackChannel = true
+	}
+	srv, app, err := env.StartServer(sysx.ServerOpts{Handlers: cs.Cfg.Handlers, UDP: cs.Cfg.UDP, Desc: desc, Tweak: func(s *gortsplib.Server) {
 		if cs.Cfg.Auth {
 			s.Handler = &authHandler{s.Handler.(*sysx.HandlerAll)}
 		}
@@ -615,6 +638,41 @@ func execute(cs Case) (res Result) {
 			res.Sent++
 			if !settle() {
 				return failf("hang", "library not quiescent after datagram of step %d", i)
+			}
+			continue
+		}
+		if st.Kind == "rr-echo" {
+			// the server's receiver report for the back channel comes with its report period (10 s): wait for it,
+			// take its sender SSRC and answer with a receiver report about that SSRC
+			var ssrc uint32
+			from := len(udpSeen())
+			if !advance(11 * time.Second) {
+				return failf("hang", "library not quiescent while waiting for the receiver report at step %d", i)
+			}
+			if st.Port == 0 {
+				c := conn(st.Conn)
+				c.poll()
+				for _, m := range c.next() {
+					if m.Kind == "frame" && m.Ch == 1 && len(m.Payload) >= 8 && m.Payload[1] == 201 {
+						ssrc = binary.BigEndian.Uint32(m.Payload[4:8])
+					}
+				}
+			} else {
+				for _, d := range udpSeen()[from:] {
+					if len(d) >= 8 && d[1] == 201 {
+						ssrc = binary.BigEndian.Uint32(d[4:8])
+					}
+				}
+			}
+			rr, _ := (&rtcp.ReceiverReport{SSRC: 0x4321, Reports: []rtcp.ReceptionReport{{SSRC: ssrc, LastSequenceNumber: 1}}}).Marshal()
+			if st.Port == 0 {
+				conn(st.Conn).write(frameBytes(1, rr))
+			} else if cs.Cfg.UDP {
+				env.Net.Inject(&net.UDPAddr{IP: net.IPv4(127, 0, 0, 1), Port: st.Port}, 8001, rr)
+			}
+			res.Sent++
+			if !settle() {
+				return failf("hang", "library not quiescent after the echoed receiver report of step %d", i)
 			}
 			continue
 		}
